@@ -4,6 +4,7 @@ import (
 	"fmt"
 	"go/constant"
 	"go/types"
+	"os"
 	"regexp"
 	"regexp/syntax"
 	"sort"
@@ -387,14 +388,29 @@ func zipWorlds(c *aeCtx, root *ssa.Function) (leaves []zipLeaf, fn *ssa.Function
 	}
 	id := loopID(fn, lp)
 	pres := ""
-	for k, ti := range c.terms {
-		if ti.kind == akPresence && strings.HasPrefix(k, "present:") {
-			if _, ok := c.terms["zip:"+id+"("+strings.TrimPrefix(k, "present:")+")"]; ok {
-				pres = k
+	find := func() {
+		for k, ti := range c.terms {
+			if ti.kind == akPresence && strings.HasPrefix(k, "present:") {
+				if _, ok := c.terms["zip:"+id+"("+strings.TrimPrefix(k, "present:")+")"]; ok {
+					pres = k
+				}
 			}
 		}
 	}
+	find()
+	if pres == "" && fn != root && len(fn.Params) == 2 {
+		// the loop lives in a two-sided helper and was analysed from there: its position terms are
+		// relative to the helper's parameters
+		root = fn
+		c.queryPair(root, nil, nil)
+		find()
+	}
 	if pres == "" {
+		if os.Getenv("GVDEBUG") != "" {
+			for k := range c.terms {
+				fmt.Fprintf(os.Stderr, "zipWorlds term %s (loop %s)\n", k, id)
+			}
+		}
 		return nil, fn, "", "the zipped sequence of the loop was not found"
 	}
 	seq = strings.TrimPrefix(pres, "present:")
